@@ -756,3 +756,74 @@ func callsEquivalent(c *Ctx, info *types.Info, call *ast.CallExpr, depth int) bo
 	})
 	return found
 }
+
+// ---------------------------------------------------------------------------
+// C05.collapse-needs-nullness
+
+func init() {
+	register(&Rule{
+		ID: "C05.collapse-needs-nullness", Prop: "C05", Floor: 4, Controls: 0,
+		Doc: "RefinementBuilder.NewValue turns a refined unknown into a known value only where nullness is decided: a null result only under 'definitely null', any other known result only under 'definitely not null' (otherwise the known value would exclude the null the refinement still admits)",
+		Run: runCollapseNeedsNullness,
+	})
+}
+
+func runCollapseNeedsNullness(rr *RuleRun) {
+	c := rr.Ctx
+	info := c.Info("cty")
+	fd := rr.MustDecl("cty", "RefinementBuilder.NewValue")
+	if fd == nil {
+		return
+	}
+	recv := recvObj(info, fd)
+	inspectNoLit(fd.Body, func(n ast.Node) bool {
+		ret, ok := n.(*ast.ReturnStmt)
+		if !ok || len(ret.Results) != 1 {
+			return true
+		}
+		e := ast.Unparen(ret.Results[0])
+		// the value being refined itself, and the refined unknown built at the end
+		if se, ok := e.(*ast.SelectorExpr); ok && se.Sel.Name == "orig" && objOf(info, se.X) == recv {
+			return true
+		}
+		if cl, ok := e.(*ast.CompositeLit); ok && isCtyValue(info.TypeOf(cl)) {
+			return true
+		}
+		want := "tristateFalse"
+		if call, ok := e.(*ast.CallExpr); ok && isCall(info, call, "cty.NullVal") {
+			want = "tristateTrue"
+		}
+		// enclosing case clause of a switch on <builder>.wip.null()
+		under := ""
+		for p := c.Parent(ret); p != nil && p != ast.Node(fd.Body); p = c.Parent(p) {
+			cc, ok := p.(*ast.CaseClause)
+			if !ok {
+				continue
+			}
+			bs, _ := c.Parent(cc).(*ast.BlockStmt)
+			if bs == nil {
+				continue
+			}
+			sw, ok := c.Parent(bs).(*ast.SwitchStmt)
+			if !ok || sw.Tag == nil {
+				continue
+			}
+			if call, ok := ast.Unparen(sw.Tag).(*ast.CallExpr); ok {
+				if f := callee(info, call); f != nil && f.Name() == "null" {
+					for _, ce := range cc.List {
+						if o := objOf(info, ce); o != nil {
+							under = o.Name()
+						}
+					}
+				}
+			}
+		}
+		key := fmt.Sprintf("cty.RefinementBuilder.NewValue/return %s", trunc(exprStr(e), 40))
+		if under == want {
+			rr.OK(key, ret.Pos(), "returned only under nullness "+want)
+		} else {
+			rr.Violation(key, ret.Pos(), fmt.Sprintf("a known value is returned %s, but it is justified only when nullness is %s: a refinement that still admits null (or non-null) collapses to a value that excludes it", map[bool]string{true: "under nullness " + under, false: "without consulting the nullness of the refinement"}[under != ""], want))
+		}
+		return true
+	})
+}
